@@ -1161,7 +1161,7 @@ public:
     ///
     /// \return Position of the first character not equal to any of the
     /// characters in the given string, or npos if no such character is found.
-    [[nodiscard]] constexpr auto find_first_not_of(Char const* s, size_type pos) const -> size_type
+    [[nodiscard]] constexpr auto find_first_not_of(Char const* s, size_type pos = 0) const -> size_type
     {
         return basic_string_view<Char, Traits>{*this}.find_first_not_of(s, pos);
     }
